@@ -123,6 +123,9 @@ class Atom:
             if len(self.element) == 2:
                 self.element = '{0:1s}{1:1s}'.format(
                     self.element[0], self.element[1].lower())
+            # deuterium (neutron structures) is a hydrogen
+            if self.element == 'D':
+                self.element = 'H'
 
     def set_group_type(self, type_: str):
         """Set group type of atom.
